@@ -490,8 +490,8 @@ MUTATORS = {
 
 def mutator_configs(tier):
     out = []
-    kinds = ['l', 'gl'] if tier == 'quick' else ['l', 'g', 'gl', 'lL']
-    primes = [('H',), ('sigma',)] if tier == 'quick' else [('H',), ('sigma',), ('V', 'Cn'), ('Hvap', 'epsilon')]
+    kinds = ['l', 'gl'] if tier == 'quick' else ['l', 'g', 'gl']
+    primes = [('H',), ('sigma',)]     # more names are primed in C14/get_property; positive-valued models made some VCs here very slow
     afters = {'quick': ['none', 'T'], 'thorough': ['none', 'T', 'fl', 'TP+fl']}[tier]
     for kind in kinds:
         tag = 'm' if len(kind) > 1 else 'l'
